@@ -32,15 +32,40 @@ func isCanonV4(h string) bool {
 	return true
 }
 
+// cfgSpecial returns the special-scheme set and the default ports that a configuration denotes:
+// the standard's, unless the harness itself configured WithSpecialSchemes or the Semantic profile.
+func cfgSpecial(c Config) (map[string]bool, map[string]int) {
+	var m map[string]string
+	if c.Profile == "Semantic" {
+		m = map[string]string{"ftp": "21", "file": "", "http": "80", "https": "443", "ws": "80", "wss": "443", "gopher": "70"}
+	}
+	for _, o := range c.Opts {
+		if o.N == "special" {
+			m = specialMaps()[o.I%4]
+		}
+	}
+	if m == nil {
+		return stdSpecial, stdDefaultPort
+	}
+	sp, dp := map[string]bool{}, map[string]int{}
+	for k, v := range m {
+		sp[k] = true
+		if n, err := strconv.Atoi(v); err == nil {
+			dp[k] = n
+		}
+	}
+	return sp, dp
+}
+
 // ---------------------------------------------------------------- C19
 
 type c19Checker struct{}
 
 func (c *c19Checker) After(w *World, ev *Event) []Failure {
 	var fs []Failure
-	// Under a non-default configuration only the clauses that do not depend on the configuration's
-	// own notion of special schemes / default ports are evaluated.
-	neutral := w.Cfg.Profile == "" && (len(w.Cfg.Opts) == 0 || (len(w.Cfg.Opts) == 1 && w.Cfg.Opts[0].N == "report"))
+	// The configuration may carry its own notion of special schemes and default ports
+	// (WithSpecialSchemes, the Semantic profile); the harness knows what it configured.
+	special, defPort := cfgSpecial(w.Cfg)
 	for _, id := range w.uids() {
 		o := w.Cur[id]
 		ctx := []string{"url", fmt.Sprintf("u%d", id), "href", q(o.Href), "prov", w.U[id].Prov}
@@ -51,18 +76,18 @@ func (c *c19Checker) After(w *World, ev *Event) []Failure {
 		if o.V6 != isV6 {
 			add("C19.IsIPv6", "IsIPv6", fmt.Sprint(o.V6), "hostname", q(o.Hostname))
 		}
-		isV4 := stdSpecial[o.Scheme] && isCanonV4(o.Hostname)
-		if neutral && o.V4 != isV4 {
+		isV4 := special[o.Scheme] && isCanonV4(o.Hostname)
+		if o.V4 != isV4 {
 			add("C19.IsIPv4", "IsIPv4", fmt.Sprint(o.V4), "hostname", q(o.Hostname), "scheme", o.Scheme)
 		}
-		want := stdDefaultPort[o.Scheme]
+		want := defPort[o.Scheme]
 		if o.Port != "" {
 			n, err := strconv.Atoi(o.Port)
 			if err == nil {
 				want = n
 			}
 		}
-		if neutral && o.DPort != want {
+		if o.DPort != want {
 			add("C19.DecodedPort", "DecodedPort", fmt.Sprint(o.DPort), "want", fmt.Sprint(want), "port", q(o.Port), "scheme", o.Scheme)
 		}
 		if o.Scheme+":" != o.Protocol {
@@ -80,7 +105,7 @@ func (c *c19Checker) After(w *World, ev *Event) []Failure {
 		if strings.HasPrefix(o.Href, o.Protocol) && o.Opaque != shapeOpaque {
 			add("C19.OpaquePath", "OpaquePath", fmt.Sprint(o.Opaque), "pathname", q(o.Pathname))
 		}
-		if neutral && o.Special != stdSpecial[o.Scheme] {
+		if o.Special != special[o.Scheme] {
 			add("C19.IsSpecialScheme", "IsSpecialScheme", fmt.Sprint(o.Special), "scheme", o.Scheme)
 		}
 	}
@@ -280,10 +305,37 @@ func modelRoundTrips(o Obs) bool {
 	return strings.Join(modelPrimary(m2), "\x01") == strings.Join(modelPrimary(m), "\x01")
 }
 
+// track runs the standard's algorithms in lockstep (as C05 does), so that the exemption can tell a
+// state the standard reaches and does not round-trip from a state the standard never reaches.
+func (c *c03Checker) track(w *World, ev *Event) {
+	model.ToASCIIHook = realToASCII
+	defer func() { model.ToASCIIHook = nil }()
+	if ev.Created >= 0 {
+		uh := w.U[ev.Created]
+		o := w.Cur[ev.Created]
+		uh.M = abstract(o)
+		if f, _, _ := diffPrimary(o.Primary(), modelPrimary(uh.M)); f != "" {
+			uh.MDead = true
+		}
+		return
+	}
+	if ev.Target < 0 || ev.Op.K != "set" {
+		return
+	}
+	uh := w.U[ev.Target]
+	if uh.M == nil || uh.MDead {
+		return
+	}
+	if uh.M.Set(modelSetterNames[ev.Op.W%9], ev.Val) == model.Unsupported {
+		uh.MDead = true
+	}
+}
+
 func (c *c03Checker) After(w *World, ev *Event) []Failure {
 	if c.last == nil {
 		c.last = map[int]string{}
 	}
+	c.track(w, ev)
 	var fs []Failure
 	for _, id := range w.uids() {
 		o := w.Cur[id]
@@ -307,13 +359,24 @@ func (c *c03Checker) After(w *World, ev *Event) []Failure {
 		if why == nil {
 			continue
 		}
-		if !modelRoundTrips(o) {
+		if uh := w.U[id]; uh.M != nil && !uh.MDead {
+			if f, _, _ := diffPrimary(o.Primary(), modelPrimary(uh.M)); f == "" {
+				// the standard reaches exactly this state: exempt iff the standard does not round-trip it
+				if !modelRoundTrips(o) {
+					c.exempt++
+					continue
+				}
+			}
+			// otherwise the standard, given the same calls, is in a different state: not exempt
+		} else if !modelRoundTrips(o) {
+			// the model lost track (IDNA): fall back to judging the state by itself
 			c.exempt++
 			continue
 		}
 		// for known-finding predicates: the Unicode form of ACE labels in the host
 		hu, _ := idna.Punycode.ToUnicode(o.Hostname)
-		fs = append(fs, fail("C03.reparse", append([]string{"url", fmt.Sprintf("u%d", id), "href", q(o.Href), "hostname", q(o.Hostname), "hostname-unicode", hu}, why...)...))
+		fs = append(fs, fail("C03.reparse", append([]string{"url", fmt.Sprintf("u%d", id), "href", q(o.Href), "hostname", q(o.Hostname), "hostname-unicode", hu,
+			"host-has-ace-label-and-std3-disallowed-ascii", fmt.Sprint(aceWithSTD3Disallowed(o.Hostname))}, why...)...))
 	}
 	return fs
 }
@@ -404,4 +467,26 @@ func tabRemovalJoinsUTF8(s string) bool {
 		}
 	}
 	return scalar(string(raw)) != strip(scalar(s))
+}
+
+// aceWithSTD3Disallowed: the host has an ACE (xn--) label and, anywhere, an ASCII character that
+// UseSTD3ASCIIRules disallows (anything but letters, digits, hyphen; dots separate labels). Witness
+// attribute for a known-finding predicate only.
+func aceWithSTD3Disallowed(h string) bool {
+	ace := false
+	for _, l := range strings.Split(strings.ToLower(h), ".") {
+		if strings.HasPrefix(l, "xn--") {
+			ace = true
+		}
+	}
+	if !ace || strings.HasPrefix(h, "[") {
+		return false
+	}
+	for i := 0; i < len(h); i++ {
+		c := h[i]
+		if c < 0x80 && !(c >= 'a' && c <= 'z' || c >= 'A' && c <= 'Z' || c >= '0' && c <= '9' || c == '-' || c == '.') {
+			return true
+		}
+	}
+	return false
 }
